@@ -31,7 +31,7 @@ RULE = ("seeded swarm with boundary-biased timings: deadline steered to elapsed-
 COMPONENTS = common.REAL_COMPONENTS
 ASSUMPTIONS = ["callbacks other than operation and sleeper take zero virtual time", "sleeper overshoot >= 0",
                "the sleep handler never defers past the envelope (DEFER ends the run)", "sampling, not proof"]
-BUDGETS = {"quick": (16000, 40), "thorough": (1000000, 280)}
+BUDGETS = {"quick": (48000, 90), "thorough": (2200000, 285)}
 
 
 def gen(seed, tier="quick"):
